@@ -1,2 +1,170 @@
-(* Properties/C03.v — property theorems only. (stub) *)
+(* Properties/C03.v — SAM alignments, typed tags, headers and flag bits survive
+   write -> read.  Only statements; every proof is [exact <lemma>].
+
+   Model: Model/Sam.v (sam.go, iter.go, tags.go of the current tree: lines are
+   read with ReadString and split on TAB by hand) and gen/FlagGen.v, which is
+   regenerated from flag.go on every run.
+
+   Floats: an 'f' tag value is identified by its canonical text; what the writer
+   prints for it (FormatFloat 'e') and what ParseFloat accepts are the answers
+   of an oracle [o].  strconv's contract
+     H1  parseF o (fmtF o x) = Some x
+     H2  fmtF o x is non-empty and free of TAB/CR/LF
+   is required, inside [sam_ok], of exactly the floats that occur in the record
+   ([float_ok]); it is not assumed of all floats, so the hypotheses are
+   satisfiable by the finite tables used in the correspondence runs
+   (C03_example below). *)
+From Coq Require Import String Permutation Sorting.Sorted.
 From Bio Require Import Base.
+From Bio.gen Require Import FlagGen.
+From Bio.Model Require Import Sam.
+From Bio.Spec Require Import SamSpec.
+From Bio.Proofs Require Import SamProofs SamProofsB SamProofsC.
+Open Scope N_scope.
+
+(* Any record in the domain (text fields free of TAB/CR/LF, query name not
+   starting with '@', tag names additionally free of ':', 'A' values not
+   TAB/CR/LF, any int64 integers, tags of the five types; nothing is required
+   about double quotes or any other byte), written with Write and read back by
+   ReaderHeader, yields exactly one item: the same record. *)
+Theorem C03_roundtrip : forall o r, sam_ok o r ->
+  exists r', reader_header o (write o r) TEOF = [Rec (Aln r')] /\ sam_eq r r'.
+Proof. exact roundtrip. Qed.
+Print Assumptions C03_roundtrip.
+
+Theorem C03_roundtrip_reader : forall o r, sam_ok o r ->
+  exists r', reader o (write o r) TEOF = [Rec r'] /\ sam_eq r r'.
+Proof. exact roundtrip_reader. Qed.
+Print Assumptions C03_roundtrip_reader.
+
+(* MarshalText returns the bytes Write writes. *)
+Theorem C03_marshal_is_write : forall o r, marshal_text o r = Ok (concat (write_calls o r)).
+Proof. exact (fun o r => eq_refl). Qed.
+Print Assumptions C03_marshal_is_write.
+
+(* [sam_eq] is equality of the tag maps: every lookup gives the same answer. *)
+Theorem C03_same_record_same_lookups : forall r r', NoDup (map fst (s_tags r)) -> sam_eq r r' ->
+  forall k, tag_lookup k (s_tags r) = tag_lookup k (s_tags r').
+Proof. exact sam_eq_lookup. Qed.
+Print Assumptions C03_same_record_same_lookups.
+
+(* Tags are written sorted (any record, in the domain or not): Write makes one
+   call for the eleven mandatory fields, one per tag in bytewise order of the
+   tag texts, one for the line feed. *)
+Theorem C03_tags_sorted : forall o r,
+  exists ts, write_calls o r = join_with [TAB] (fields11 r) :: map (fun t => TAB :: t) ts ++ [[LF]]
+    /\ Sorted bytes_le ts /\ Permutation ts (map (tag_text o) (s_tags r)).
+Proof. exact tags_sorted. Qed.
+Print Assumptions C03_tags_sorted.
+
+(* Each record occupies exactly one line: one LF, and it is the last byte. *)
+Theorem C03_one_line : forall o r, sam_ok o r ->
+  exists l, write o r = l ++ [LF] /\ ~ In LF l.
+Proof. exact one_line. Qed.
+Print Assumptions C03_one_line.
+
+(* A file of header lines followed by records, lines ended by LF or CRLF:
+   ReaderHeader returns it line for line in order, headers verbatim; Reader
+   returns exactly the records. *)
+Theorem C03_file : forall o eol hs rs, eol = [LF] \/ eol = [CR; LF] ->
+  Forall header_ok hs -> Forall (sam_ok o) rs ->
+  exists rs',
+    reader_header o (file_text o eol hs rs) TEOF
+      = map (fun h => Rec (Hdr h)) hs ++ map (fun r => Rec (Aln r)) rs'
+    /\ reader o (file_text o eol hs rs) TEOF = map Rec rs'
+    /\ Forall2 sam_eq rs rs'.
+Proof. exact file_roundtrip. Qed.
+Print Assumptions C03_file.
+
+(* with LF line ends the file is the headers, each followed by LF, then what
+   Write writes for each record *)
+Theorem C03_file_text_lf : forall o hs rs,
+  file_text o [LF] hs rs = concat (map (fun h => h ++ [LF]) hs) ++ concat (map (write o) rs).
+Proof. exact file_text_lf. Qed.
+Print Assumptions C03_file_text_lf.
+
+(* parseLine has no reachable panic (parseInts always gets 5 strings, 5 pointers). *)
+Theorem C03_parse_line_no_panic : forall o l, parse_line o l <> Panic.
+Proof. exact parse_line_no_panic. Qed.
+Print Assumptions C03_parse_line_no_panic.
+
+(* ---- flags: over the lists generated from flag.go, for ALL integers f ---- *)
+
+(* the i-th accessor of flag.go has the i-th name of the specification and
+   reads exactly that bit *)
+Theorem C03_flag_getters_exact :
+  Forall2 (fun (p : string * (Z -> bool)) (q : string * Z) =>
+             fst p = fst q /\ forall f : Z, snd p f = Z.testbit f (snd q))
+          flag_getters flag_spec_bits.
+Proof. exact flag_getters_exact. Qed.
+Print Assumptions C03_flag_getters_exact.
+
+(* the i-th setter writes exactly that bit and no other bit (j ranges over all
+   bit positions) *)
+Theorem C03_flag_setters_exact :
+  Forall2 (fun (p : string * (Z -> bool -> Z)) (q : string * Z) =>
+             fst p = fst q /\
+             forall (f : Z) (v : bool) (j : Z),
+               Z.testbit (snd p f v) j = if (j =? snd q)%Z then v else Z.testbit f j)
+          flag_setters flag_spec_bits.
+Proof. exact flag_setters_exact. Qed.
+Print Assumptions C03_flag_setters_exact.
+
+(* the constants are 0x1 .. 0x800 in the order of the SAM specification *)
+Theorem C03_flag_bits_are_spec :
+  Forall2 (fun (p q : string * Z) => fst p = ("Flag" ++ fst q)%string /\ snd p = (2 ^ snd q)%Z)
+          flag_consts flag_spec_bits
+  /\ map snd flag_spec_bits = [0; 1; 2; 3; 4; 5; 6; 7; 8; 9; 10; 11]%Z.
+Proof. exact (conj flag_bits_are_spec eq_refl). Qed.
+Print Assumptions C03_flag_bits_are_spec.
+
+(* In-form: whatever accessor / setter flag.go defines is one of the twelve *)
+Theorem C03_flag_getters_in : forall name g, In (name, g) flag_getters ->
+  exists n, In (name, n) flag_spec_bits /\ forall f : Z, g f = Z.testbit f n.
+Proof. exact flag_getters_in. Qed.
+Print Assumptions C03_flag_getters_in.
+
+Theorem C03_flag_setters_in : forall name s, In (name, s) flag_setters ->
+  exists n, In (name, n) flag_spec_bits /\
+    forall (f : Z) (v : bool) (j : Z),
+      Z.testbit (s f v) j = if (j =? n)%Z then v else Z.testbit f j.
+Proof. exact flag_setters_in. Qed.
+Print Assumptions C03_flag_setters_in.
+
+(* ---- non-vacuity ---- *)
+
+Definition ex_o : foracle :=
+  {| f_parse := [(bs "NaN", bs "NaN"); (bs "-2.5e-10", bs "-2.5e-10")];
+     f_fmt := [(bs "NaN", bs "NaN"); (bs "-2.5e-10", bs "-2.5e-10")] |}.
+
+(* quotes at the start of the query name and of the qualities (the D2 input),
+   an empty field, all five tag types, names whose text order differs from
+   their name order *)
+Definition ex_r : sam :=
+  {| s_qname := bs """q"; s_flag := 4095; s_rname := bs "chr1"; s_pos := 9223372036854775807;
+     s_mapq := -9223372036854775808; s_cigar := bs "4M"; s_rnext := []; s_pnext := 0; s_tlen := -1;
+     s_seq := bs "ACGT"; s_qual := bs """!!!";
+     s_tags := [ (bs "XX", TI 77); (bs "N", TF (bs "NaN")); (bs "N!", TF (bs "-2.5e-10"));
+                 (bs "XA", TA 34); (bs "XZ", TZ []); (bs "XH", TH [0; 255]) ] |}.
+
+Definition ex_r_read : sam :=
+  {| s_qname := bs """q"; s_flag := 4095; s_rname := bs "chr1"; s_pos := 9223372036854775807;
+     s_mapq := -9223372036854775808; s_cigar := bs "4M"; s_rnext := []; s_pnext := 0; s_tlen := -1;
+     s_seq := bs "ACGT"; s_qual := bs """!!!";
+     s_tags := [ (bs "N!", TF (bs "-2.5e-10")); (bs "N", TF (bs "NaN")); (bs "XA", TA 34);
+                 (bs "XH", TH [0; 255]); (bs "XX", TI 77); (bs "XZ", TZ []) ] |}.
+
+Example C03_example_in_domain : sam_ok ex_o ex_r.
+Proof.
+  constructor; try (vm_compute; repeat constructor; discriminate).
+  - vm_compute. repeat constructor; try discriminate.
+  - vm_compute. repeat constructor; intuition discriminate.
+Qed.
+
+Example C03_example :
+  reader_header ex_o (write ex_o ex_r) TEOF = [Rec (Aln ex_r_read)]
+  /\ reader_header ex_o (file_text ex_o [CR; LF] [64 :: bs "HD" ++ TAB :: bs "VN:""1.6"""] [ex_r; ex_r]) TEOF
+     = [Rec (Hdr (64 :: bs "HD" ++ TAB :: bs "VN:""1.6""")); Rec (Aln ex_r_read); Rec (Aln ex_r_read)]
+  /\ reader ex_o (bs "@h" ++ LF :: bs "too" ++ TAB :: bs "few" ++ [LF]) TEOF = [ErrItem]
+  /\ get_Supplementary 2048 = true /\ set_Unmapped 4095 false = 4091%Z.
+Proof. vm_compute. repeat split. Qed.
